@@ -104,7 +104,7 @@ def run_case(case, ctx):
     k, n, happy = case["k"], case["n"], case["happy"]
     data = pbytes(1, case["size"])
     si, ref, refraw, refcap = reference_shares(ctx, case, data)
-    base = os.path.join(ctx.tmp, "case", "g")
+    base = os.path.join(ctx._casedir, "g")         # (the directory reference_shares() just created for this case)
     kinds = [s[0] for s in case["servers"]]
     skw = {i: ({"readonly_storage": True} if kd == "readonly" else {}) for i, kd in enumerate(kinds)}
     g = Grid(base, len(kinds), {"k": k, "n": n, "happy": happy, "max_segment_size": case["seg"]}, server_kw=skw, nclients=0)
